@@ -1,8 +1,39 @@
 import Req.Driver.Proto
-/-! Driver lanes of C03. -/
-namespace Req.Driver.L.C03
-open Req.Proto
+import Req.H1.Response
+/-! Driver lanes of C03.
 
-def lanes : List (String × (List String → String)) := []
+`c03cut <G|H> <eof|hold> <hex stream> <k>`: the peer sends the first `k` bytes of the stream in
+answer to the first request of a fresh client and then ends the connection (`eof`) or keeps it
+open (`hold`, only used with `k` = whole stream).  Answer: what the caller of the real client
+must observe — `fail` or `ok code=… body=…` — and how many connections the client will have
+dialled after a second request (`dials=1` iff the model's `connReusable` allows reuse).
+Mode `early`: connection kept open, but the caller closes the body without reading it.
+-/
+namespace Req.Driver.L.C03
+open Req.Proto Req.H1
+
+def laneCut : List String → String
+  | [meth, mode, hex, ks] =>
+    match decodeHex hex, ks.toNat? with
+    | some s, some k =>
+      if meth != "G" && meth != "H" then "bad-op"
+      else if mode != "eof" && mode != "hold" && mode != "early" then "bad-op"
+      else
+        let isHead := meth == "H"
+        let o := parseFinal isHead 4096 (s.take k)
+        let env : ReuseEnv := ⟨false, isHead, false, mode == "eof", true, true, mode != "early"⟩
+        let dials := if connReusable o env then "1" else "2"
+        match o with
+        | .reject => "fail dials=" ++ dials
+        | .resp m b =>
+          if mode == "early" then "ok-early code=" ++ toString m.sl.code ++ " dials=" ++ dials
+          else if b.ok then "ok code=" ++ toString m.sl.code ++ " body=" ++ encodeHex b.data ++ " dials=" ++ dials
+          else "fail dials=" ++ dials
+    | _, _ => "bad-op"
+  | _ => "bad-op"
+
+def lanes : List (String × (List String → String)) := [
+  ("c03cut", laneCut)
+]
 
 end Req.Driver.L.C03
